@@ -22,6 +22,7 @@ func newPS(k *mon.Case, std bool) (*poolsim.PS, error) {
 	g.MaxTx = 3
 	mp := node.DefaultMemPolicy()
 	mp.MaxOrphanTxs = []int{1, 2, 5, 100}[r.Intn(4)]
+	mp.MaxOrphanTxSize = []int{400, 1000, 3000, 100000}[r.Intn(4)]
 	mp.RejectReplacement = r.Chance(1, 8)
 	mp.AcceptNonStd = !std
 	g.StandardOnly = std
@@ -40,6 +41,10 @@ func fee(r *mon.Rand) int64 { return int64(1000 + r.Intn(40000)) }
 
 // oneOp performs one random pool / chain operation.
 func oneOp(ps *poolsim.PS, r *mon.Rand, allowChainOps bool) {
+	if r.Chance(1, 16) {
+		orphanBoundary(ps, r)
+		return
+	}
 	v := ps.View()
 	switch x := r.Intn(100); {
 	case x < 34: // good transaction (confirmed and unconfirmed inputs)
@@ -263,6 +268,57 @@ func oneOp(ps *poolsim.PS, r *mon.Rand, allowChainOps bool) {
 
 func ptr[T any](v T) *T { return &v }
 
+// orphanBoundary offers an orphan (unknown parent) whose serialized size is exactly at, one below or one above
+// MaxOrphanTxSize. Orphans are stored before any script validation, so the bulk sits in unvalidated witness data
+// (the stored bytes are what the bound is about) or, alternatively, in an OP_RETURN output.
+func orphanBoundary(ps *poolsim.PS, r *mon.Rand) {
+	pol := ps.F.MemPolicy
+	lim := pol.MaxOrphanTxSize
+	if lim > 5000 || pol.MaxOrphanTxs == 0 {
+		return
+	}
+	target := lim - 1 + r.Intn(3)
+	inWitness := r.Bool() || !pol.AcceptNonStd
+	tx := wire.NewMsgTx(2)
+	var op wire.OutPoint
+	r.Fill(op.Hash[:])
+	tx.AddTxIn(&wire.TxIn{PreviousOutPoint: op, Sequence: 0xffffffff})
+	// two outputs: transactions below 65 stripped bytes are refused by policy
+	tx.AddTxOut(&wire.TxOut{Value: 100000, PkScript: ps.G.Script(ps.G.RandomKind(r), r.Intn(4), r)})
+	tx.AddTxOut(&wire.TxOut{Value: 100000, PkScript: ps.G.Script(chaingen.KP2PKH, r.Intn(4), r)})
+	pad := func(n int) {
+		if inWitness {
+			tx.TxIn[0].Witness = wire.TxWitness{make([]byte, n)}
+		} else {
+			tx.TxOut = tx.TxOut[:2]
+			tx.AddTxOut(&wire.TxOut{Value: 0, PkScript: append([]byte{0x6a}, make([]byte, n)...)})
+		}
+	}
+	pad(1)
+	n := 1 + target - tx.SerializeSize()
+	for i := 0; i < 4 && n >= 1; i++ {
+		pad(n)
+		n += target - tx.SerializeSize()
+	}
+	if n < 1 || tx.SerializeSize() != target {
+		return
+	}
+	before := ps.View()
+	o := ps.Submit(tx, true, "process", before)
+	if ps.Failed {
+		return
+	}
+	h := tx.TxHash()
+	_, stored := o.After.Orphans[h]
+	switch {
+	case target <= lim && (o.Err != nil || !stored):
+		ps.Fail("orphan:within-size-limit-not-stored", "orphan of %d bytes (limit %d, padding in witness: %v): err=%v stored=%v", target, lim, inWitness, o.Err, stored)
+	case target > lim && (o.Err == nil || stored):
+		ps.Fail("I7:orphan-size", "orphan of %d serialized bytes exceeds MaxOrphanTxSize %d (padding in witness: %v) but err=%v stored=%v", target, lim, inWitness, o.Err, stored)
+	}
+	ps.K.Count(map[bool]string{true: "orphan.boundary.within", false: "orphan.boundary.above"}[target <= lim], 1)
+}
+
 func runSeq(k *mon.Case) {
 	ps, err := newPS(k, k.Rand.Chance(1, 4))
 	if err != nil {
@@ -477,6 +533,8 @@ func main() {
 		c.Require("check.minable", 1000)
 		c.Require("replacement.accepted", 20)
 		c.Require("submit.orphans_promoted", 10)
+		c.Require("orphan.boundary.within", 10)
+		c.Require("orphan.boundary.above", 10)
 		c.Require("template.mined", 50)
 		c.Require("chain.reorg", 20)
 	})
